@@ -183,7 +183,7 @@ def run_harness(loaded: Loaded, ob, cfg):
             ctx.fail("no-escape", kind="escape", detail=f"uncaught {cls}{pr.exc.fields.get('args', '')!r:.200} in harness at {pr.where}")
 
     pcfg = cfg
-    if "max_paths" in opts or "check_timeout_ms" in opts or "loop_unroll" in opts:
+    if "max_paths" in opts or "check_timeout_ms" in opts or "loop_unroll" in opts or "lia_branch" in opts:
         pcfg = Config(**{**cfg.__dict__, **{k: v for k, v in opts.items() if k in cfg.__dict__}})
         interp.cfg = pcfg
     try:
